@@ -154,9 +154,17 @@ def r2_strings(repo, report):
         # both arguments have the same length qb, and the replacement is chr(qb)
         a, b = mt[0].args
         try:
+            zp = params(zinit)
             for qb in (33, 64):
-                av = constfold.fold(a, {"qb": qb, "quality_base": qb})
-                bv = constfold.fold(b, {"qb": qb, "quality_base": qb})
+                cenv = {zp[1]: qb}
+                for st in zinit.body:  # locals that are plain functions of the base
+                    if isinstance(st, ast.Assign) and isinstance(st.targets[0], ast.Name):
+                        try:
+                            cenv[st.targets[0].id] = constfold.fold(st.value, cenv)
+                        except constfold.NotConstant:
+                            pass
+                av = constfold.fold(a, cenv)
+                bv = constfold.fold(b, cenv)
                 if len(av) != len(bv) or av != "".join(map(chr, range(qb))) or bv != chr(qb) * qb:
                     ok = False
                     facts[f"qb={qb}"] = (repr(av)[:40], repr(bv)[:40])
